@@ -12,7 +12,7 @@ RULE = (
     "pair: a generated nested backtest whose sub-strategies have deterministic, calendar-gated stacks (any parent stack and allocation schedule incl. never/late/de-funding, parent "
     "capital 1e4..5e8, integer or fractional positions, any commission spec and spread) vs, for every sub-strategy, a stand-alone Backtest of the same definition over the same data "
     "with the same settings; one family has leveraged / short children on jumpy prices, which may go bankrupt on their own. Oracle: child.prices of the nested run equals the stand-alone strategy.prices date for date (1e-12 relative), and the parent's universe column of the "
-    "child equals child.prices. pair_rot: the same comparison with every child's stack ending in RebalanceOverTime(n) marked run_always (an algo that keeps its state on the algo object and is reached on every date). non-trivial = the child trades at least twice and the parent's allocation to it changes at least once. distinct = distinct spec hashes."
+    "child equals child.prices. dynamic_column: a sub-strategy opened during the run (pairs-trading pattern) after the parent has read its universe that date: read again, the universe has the child's column and it carries the child's index. pair_rot: the same comparison with every child's stack ending in RebalanceOverTime(n) marked run_always (an algo that keeps its state on the algo object and is reached on every date). non-trivial = the child trades at least twice and the parent's allocation to it changes at least once. distinct = distinct spec hashes."
 )
 ASSUMPTIONS = ["children use no RNG-based algos and are gated by a calendar scheduler (the statement's quantifier)", "stand-alone definitions that go bankrupt are compared too (their index freezes at the bankruptcy)"]
 BUILDS = {"quick": ["py"], "thorough": ["py", "cy"]}
@@ -115,10 +115,63 @@ def rot_spec():
     return gen.backtest_spec(nested=True, deterministic_children=True, min_dates=5, max_dates=18).map(_stateful_children)
 
 
-SUBS = {"pair": case_pair, "pair_rot": case_pair}
-STRATS = {"pair": pair_spec, "pair_rot": rot_spec}
+@st.composite
+def dynamic_column_spec(draw):
+    """the parent has looked at its universe on a date (any signal or selection algo does), then opens a sub-strategy on that date the way
+    the pairs-trading example does, and looks again"""
+    ds = draw(gen.dates(4, 9, kinds=("bday", "daily")))
+    n = len(ds)
+    nt = draw(st.integers(2, 4))
+    tickers = gen.TICKERS[:nt]
+    pr = {t: draw(gen.price_path(n, vol=0.02, decimals=4)) for t in tickers}
+    j = draw(st.integers(0, n - 2))
+    sub_t = draw(st.lists(st.sampled_from(tickers), min_size=1, max_size=2, unique=True))
+    algos = [["Probe", {"key": "c09dyn", "tag": "before"}], ["SpawnSub", {"date": ds[j], "name": "T1", "tickers": sub_t, "frac": draw(st.sampled_from([0.2, 0.5, None, None])), "declare": True}], ["Probe", {"key": "c09dyn", "tag": "after"}]]
+    return {"dates": ds, "prices": pr, "rng_seed": 0, "frames": {}, "additional": [], "integer_positions": draw(st.booleans()), "initial_capital": 1e6, "fee": {"kind": "none"}, "tree": {"name": "root", "kind": "Strategy", "algos": algos, "children": list(tickers) if draw(st.booleans()) else None}, "spawn_on": ds[j]}
+
+
+def case_dynamic_column(ctx, spec):
+    import pandas as pd
+
+    bt = ctx.bt
+    holder = {}
+    seen = []
+
+    def cb(algo, target):
+        if target is not holder.get("root"):
+            return
+        u = target.universe
+        if algo.tag == "after" and "T1" in target.children:
+            child = target.children["T1"]
+            if "T1" not in u.columns:
+                raise Violation("on %s the parent's universe, read again after the sub-strategy T1 was opened, has no column for it (columns %s)" % (target.now, [str(c) for c in u.columns]), signature="c09:dynamic-column-missing")
+            cell = float(u["T1"].loc[target.now])
+            if not abs(cell - float(child.price)) <= 1e-12 * max(1.0, abs(child.price)):
+                raise Violation("on %s the parent sees %r for its sub-strategy T1 whose index is %r" % (target.now, cell, child.price), signature="c09:dynamic-column-value")
+            seen.append(target.now)
+
+    interp.Probe.registry["c09dyn"] = cb
+    base = {k: v for k, v in spec.items() if k != "spawn_on"}
+    if base["tree"].get("children") is None:
+        base["tree"] = {k: v for k, v in base["tree"].items() if k != "children"}
+    try:
+        b = interp.mk_backtest(bt, base)
+        holder["root"] = b.strategy
+        b.run()
+    except Violation:
+        raise
+    except Exception as e:
+        raise Violation("opening a sub-strategy during the run raised %s: %s" % (type(e).__name__, str(e)[:200]), signature="c09:dynamic-raises")
+    finally:
+        interp.Probe.registry.pop("c09dyn", None)
+    return {"nontrivial": len(seen) >= 2, "labels": ["spawned"] if seen else []}
+
+
+SUBS = {"pair": case_pair, "pair_rot": case_pair, "dynamic_column": case_dynamic_column}
+STRATS = {"pair": pair_spec, "pair_rot": rot_spec, "dynamic_column": dynamic_column_spec}
 
 
 def shard(ctx):
     run_sub(ctx, "pair", pair_spec(), lambda s: case_pair(ctx, s), ctx.n(2400, 24000))
+    run_sub(ctx, "dynamic_column", dynamic_column_spec(), lambda s: case_dynamic_column(ctx, s), ctx.n(400, 6000))
     run_sub(ctx, "pair_rot", rot_spec(), lambda s: case_pair(ctx, {k: v for k, v in s.items() if k != "stateful_children"}), ctx.n(600, 8000))
